@@ -13,7 +13,7 @@ from common import Rng, esc
 PID = "C12"
 THEOREMS = {"CbProps.C12": ["CbProps.C12." + t for t in [
     "dispatch_selects_dynamic_type", "self_writes_visible", "reassign_changes_dispatch", "no_impl_rejected",
-    "impl_statics_per_pair", "observers_change_nothing"]]}
+    "impl_statics_per_pair", "observers_change_nothing", "mutRet_is_mut_then_obs"]]}
 
 
 def gen_case(r, allow_reject):
@@ -47,8 +47,10 @@ def gen_case(r, allow_reject):
             assigned[p] = conc[c][0]
         elif k < 45:
             ops.append("O %d" % p)
-        elif k < 62:
+        elif k < 55:
             ops.append("M %d %d" % (p, r.range(-3, 5)))
+        elif k < 62:
+            ops.append("B %d %d" % (p, r.range(-3, 5)))
         elif k < 76:
             ops.append("S %d" % p)
         elif k < 84:
@@ -70,7 +72,7 @@ def render(case):
     impls, conc, ifv, ops, ni, nt = case
     L = []
     for i in range(ni):
-        L.append("interface I%d { int m0_%d(); void m1_%d(int k); int m2_%d(); }" % (i, i, i, i))
+        L.append("interface I%d { int m0_%d(); void m1_%d(int k); int m2_%d(); int m3_%d(int k); }" % (i, i, i, i, i))
     for j in range(nt):
         L.append("struct T%d { int v; };" % j)
     for (i, j), (a, b, c, d) in sorted(impls.items()):
@@ -79,6 +81,7 @@ def render(case):
         L.append("    int m0_%d() { return self.v * %d + %d; }" % (i, a, b))
         L.append("    void m1_%d(int k) { self.v = self.v + k * %d; }" % (i, c))
         L.append("    int m2_%d() { s = s + %d; return s; }" % (i, d))
+        L.append("    int m3_%d(int k) { self.v = self.v + k * %d; return self.v * %d + %d; }" % (i, c, a, b))
         L.append("}")
     for i in range(ni):
         L.append("void obs%d(I%d x) { x.m1_%d(1); println(x.m0_%d()); }" % (i, i, i, i))
@@ -86,7 +89,11 @@ def render(case):
     for n, (j, v) in enumerate(conc):
         L.append("    T%d c%d; c%d.v = %d;" % (j, n, n, v))
     declared = set()
-    for op in ops:
+    # every call goes either through the interface variable or through a pointer to it (decided per operation by a
+    # hash of its position: rendering only, the model treats both as the same receiver)
+    def recv(p, n):
+        return ("q%s->" % p) if (n * 7 + int(p)) % 3 == 0 else ("p%s." % p)
+    for n_op, op in enumerate(ops):
         f = op.split(" ")
         if f[0] == "A":
             p, c = int(f[1]), int(f[2])
@@ -94,13 +101,16 @@ def render(case):
                 L.append("    p%d = c%d;" % (p, c))
             else:
                 L.append("    I%d p%d = c%d;" % (ifv[p], p, c))
+                L.append("    I%d* q%d = &p%d;" % (ifv[p], p, p))
                 declared.add(p)
         elif f[0] == "O":
-            L.append("    println(p%s.m0_%d());" % (f[1], ifv[int(f[1])]))
+            L.append("    println(%sm0_%d());" % (recv(f[1], n_op), ifv[int(f[1])]))
         elif f[0] == "M":
-            L.append("    p%s.m1_%d(%s);" % (f[1], ifv[int(f[1])], f[2]))
+            L.append("    %sm1_%d(%s);" % (recv(f[1], n_op), ifv[int(f[1])], f[2]))
         elif f[0] == "S":
-            L.append("    println(p%s.m2_%d());" % (f[1], ifv[int(f[1])]))
+            L.append("    println(%sm2_%d());" % (recv(f[1], n_op), ifv[int(f[1])]))
+        elif f[0] == "B":
+            L.append("    println(%sm3_%d(%s));" % (recv(f[1], n_op), ifv[int(f[1])], f[2]))
         elif f[0] == "R":
             L.append("    println(c%s.v);" % f[1])
         elif f[0] == "W":
@@ -159,6 +169,6 @@ def main(a):
                                "cases end with an assignment of a type that has no impl (must be rejected). non-trivial = "
                                "distinct expected output of a case with >= 2 impls",
                        "samples": samples, "rejected_assignment_cases": nrej, "exhaustive": False})
-    v.assumptions += ["methods are called through interface variables and by-value interface parameters only (direct calls on "
-                      "the concrete object and interface pointers are not generated)"]
+    v.assumptions += ["methods are called through interface variables, pointers to interface variables and by-value interface "
+                      "parameters (direct calls on the concrete object are not generated)"]
     return v.finish()
